@@ -61,9 +61,31 @@ type cancelReader struct {
 	at     int
 	cancel context.CancelFunc
 	slow   bool
+	closed bool // written by Close, read by Read, deliberately without a lock (like most readers)
+
+	mu         sync.Mutex
+	returned   bool // the call under test has returned
+	lateCloses int  // Close calls after that
+	closes     int
+}
+
+// Close makes the reader an io.ReadCloser: the library is handed a reader it does not own and must neither close it
+// nor touch it from a goroutine that outlives the call.
+func (c *cancelReader) Close() error {
+	c.closed = true
+	c.mu.Lock()
+	c.closes++
+	if c.returned {
+		c.lateCloses++
+	}
+	c.mu.Unlock()
+	return nil
 }
 
 func (c *cancelReader) Read(p []byte) (int, error) {
+	if c.closed {
+		return 0, io.ErrClosedPipe
+	}
 	if c.at >= 0 && c.pos >= c.at {
 		c.cancel()
 		c.at = -1
@@ -90,11 +112,15 @@ type lockedWriter struct {
 	w        io.Writer
 	returned bool // set (under mu) once the call under test has returned
 	late     int  // Write calls that arrived after that
+	sleep    time.Duration
 }
 
 func (l *lockedWriter) Write(p []byte) (int, error) {
 	l.mu.Lock()
 	defer l.mu.Unlock()
+	if l.sleep > 0 {
+		time.Sleep(l.sleep) // a slow sink: widens the window in which two roots are written at the same moment
+	}
 	if l.returned {
 		l.late++
 	}
@@ -213,6 +239,9 @@ func runMscn(t []string) string {
 		w = bw
 	}
 	w = &lockedWriter{w: w}
+	if slowS == "2" {
+		w.(*lockedWriter).sleep = 20 * time.Microsecond
+	}
 
 	cbfail, _ := strconv.Atoi(strings.Replace(cbfailS, "-", "-1", 1))
 	var cmu sync.Mutex
@@ -323,6 +352,9 @@ func runMscn(t []string) string {
 	cmu.Lock()
 	cbReturned = true
 	cmu.Unlock()
+	cr.mu.Lock()
+	cr.returned = true
+	cr.mu.Unlock()
 	// a goroutine that has just closed its channels may not have left its deferred function yet: such a
 	// goroutine has nothing left to do and is gone after a few scheduler rounds (at most ~2 ms are allowed);
 	// anything that still WORKS is caught exactly by the late-use counters above
@@ -386,6 +418,9 @@ func runMscn(t []string) string {
 	cmu.Lock()
 	late += cbLate
 	cmu.Unlock()
+	cr.mu.Lock()
+	late += cr.lateCloses
+	cr.mu.Unlock()
 	return fmt.Sprintf("%s %d %d %s %s %s %d %d", res, elapsed.Milliseconds(), leaked, cancelled, strings.Join(pts, ","), chunks, atReturn, late)
 }
 
